@@ -23,4 +23,31 @@ PROPS = {
             "counts below 2^32 for the byte formats (u32 count field)",
         ],
     },
+    "C03": {
+        "stream": "tx",
+        "lean_module": "GrafeoModel.Props.C03",
+        "lean_files": ["GrafeoModel/Model/TxMgr.lean", "GrafeoModel/Proofs/TxMgrLemmas.lean", "GrafeoModel/Props/C03.lean", "GrafeoModel/Spec/TxSpec.lean"],
+        "cases": {"quick": 1500, "thorough": 40000},
+        "stateless": False,
+        "ignore_sigs": ["readonly-ser-refused", "ser-refusal-unexpected", "write-skew-accepted"],
+        "trusted_base": COMMON_TB + [
+            "modelled, not verified: parking_lot RwLock (commit holds the transactions write lock for its whole body, so it is one atomic step), FxHashMap/HashSet (iteration order irrelevant: every loop is an existential test), AtomicU64",
+            "representation: the two hash maps are one slot list indexed by tx id - 2 (ids are consecutive); mark_committed() is not modelled",
+        ],
+        "modelled": "transaction/manager.rs: begin_with_isolation, record_write, record_read, commit (both write-conflict loops, both SSI loops, epoch bump), abort, gc, state, min_active_epoch, active_count",
+        "assumptions": ["single-threaded histories of manager calls (concurrent commits are C20's stream)"],
+    },
+    "C04": {
+        "stream": "tx",
+        "lean_module": "GrafeoModel.Props.C04",
+        "lean_files": ["GrafeoModel/Model/TxMgr.lean", "GrafeoModel/Proofs/TxMgrLemmas.lean", "GrafeoModel/Props/C04.lean", "GrafeoModel/Spec/TxSpec.lean"],
+        "cases": {"quick": 1500, "thorough": 40000},
+        "stateless": False,
+        "ignore_sigs": ["false-write-conflict", "lost-update-accepted"],
+        "trusted_base": COMMON_TB + [
+            "modelled, not verified: as C03",
+        ],
+        "modelled": "as C03 (same model); the SSI block of commit",
+        "assumptions": ["reads and writes reach the manager through record_read/record_write (session level: see known findings)"],
+    },
 }
